@@ -173,7 +173,7 @@ func (t *translator) tr(e ast.Expr) string {
 	case *ast.CallExpr:
 		if id, ok := x.Fun.(*ast.Ident); ok {
 			switch id.Name {
-			case "int32", "int64", "int", "uint", "uint64":
+			case "int32", "int64", "int", "uint", "uint64", "float64":
 				if len(x.Args) == 1 {
 					return t.tr(x.Args[0])
 				}
